@@ -6,7 +6,7 @@ Definition EX (c z : Z) : ext := match c with 0 => EFin z | 1 => ENaN | 2 => EPI
 Definition enc_res (r : res) : items := match r with Seq l => 0 :: l | Err c => [1; c] end.
 Definition oz (o : option Z) : items := match o with Some z => [z] | None => [] end.
 (* function codes: 1 insert-before | 2 remove | 3 index-of | 4 reverse | 5 subsequence/2 | 6 subsequence/3 | 7 zero-or-one |
-   8 one-or-more | 9 exactly-one | 10 distinct-values | 11 sum | 12 min | 13 max | 14 count | 15 head | 16 tail | 17 avg *)
+   8 one-or-more | 9 exactly-one | 10 distinct-values | 11 sum | 12 min | 13 max | 14 count | 15 head | 16 tail | 17 avg | 18 empty | 19 exists *)
 Definition run_fn (f : Z) (l : items) (a b c d : Z) (ins : items) : items :=
   match f with
   | 1 => insert_before l a ins | 2 => remove l a | 3 => index_of l a | 4 => rev l
@@ -14,6 +14,7 @@ Definition run_fn (f : Z) (l : items) (a b c d : Z) (ins : items) : items :=
   | 7 => enc_res (zero_or_one l) | 8 => enc_res (one_or_more l) | 9 => enc_res (exactly_one l)
   | 10 => distinct_values l | 11 => [sum l] | 12 => oz (zmin l) | 13 => oz (zmax l) | 14 => [Z.of_nat (length l)]
   | 15 => match l with x :: _ => [x] | [] => [] end | 16 => tl l
+  | 18 => [if empty l then 1 else 0] | 19 => [if exists_ l then 1 else 0]
   | _ => match avg l with Some (n, d') => [n; d'] | None => [] end
   end.
 (* expression templates over sequences S, T and an integer n *)
@@ -33,3 +34,6 @@ Definition run_tpl (t : Z) (S T : items) (n : Z) : items :=
   | 11 => S ++ T ++ [n]                                                            (* ($S, $T, $n) *)
   | _ => range n (n + Z.of_nat (length S))                                         (* $n to $n + count($S) *)
   end.
+
+(* string-join on code point lists: [the join as the code computes it; the F&O value] *)
+Definition run_join (l : list (list Z)) (sep : list Z) : list (list Z) := [py_join sep l; string_join l sep].
